@@ -72,7 +72,16 @@ func vfSetPageSize(mk int) (restore func()) {
 	return func() { pageSize, maxKeys = ops, omk }
 }
 
+// vfForeign marks a failure that belongs to another property's check (a map defect on a file-backed tree that
+// was never reopened is C10's, not C16's).
+type vfForeign struct{ sig string }
+
+func (f *vfForeign) Error() string { return "foreign: " + f.sig }
+
 func (r *vfTreeRun) fail(id, sig, format string, args ...any) error {
+	if r.c.Persistent && !r.sawReopen {
+		return &vfForeign{sig: sig}
+	}
 	stage := "tree"
 	if r.c.Persistent {
 		stage = "ptree"
@@ -466,6 +475,7 @@ func (r *vfTreeRun) apply(op *vfTreeOp) (err error) {
 		if !r.c.Persistent {
 			return nil
 		}
+		r.sawReopen = true // from here on failures are C16's (a crash inside the reopen included)
 		before := t.Stats()
 		freeBefore := t.stats.NumPagesFree
 		if e := t.Close(); e != nil {
@@ -782,6 +792,10 @@ func vfTreeProperty(ev *vfEvidence, persistent bool) func(t *rapid.T) {
 			c.Ops = append(c.Ops, *op)
 			return op
 		})
+		if f, ok := err.(*vfForeign); ok {
+			ev.Excluded("diverged_other=C10:" + f.sig + " (before any reopen)")
+			return
+		}
 		if err != nil {
 			t.Fatalf("%v", err)
 		}
